@@ -8,11 +8,14 @@
         never `.ok` of other bytes and never `Fail.crash` (the model's marker for an
         out-of-bounds access of the C code: negative pivot index, short buffer, …).
   `*_rs`  Reed–Solomon instance, every k ≥ 1, k+m ≤ 32.
-  (`*_xor` for the generated flat-XOR tables is added by LecProofs.XorContracts.)
+  `*_xor` the same for every generated flat-XOR table: at or beyond hd erasures the classifier reaches
+        GE_HD and errors; the reconstruct shortcuts are sound for every missing list.
   Reads and writes outside the caller's buffers by the compiled code are runtime behaviour:
   the harness runs every case under ASan/UBSan with canaries around the output buffer.
 -/
 import LecProofs.Instances
+import LecProofs.XorContracts
+import LecProofs.XorTablesOK
 import LecGen
 namespace LecProps.C02
 open Lec
@@ -73,6 +76,39 @@ theorem reconstruct_exact_or_error_rs (env : Env) (k m ct : Nat) (hk : 1 ≤ k) 
     (rs_reconstruct_errors_negative k m) (blockSize_even _ _ hk rfl)
     (rs_frontOK env k m ct data.length hk hkm hct hlv hl0 hlen) henc hsub dest
 
+theorem decode_exact_or_error_xor (env : Env) (k m hd ct : Nat) (T : XorTable)
+    (hT : LecGen.xorTableFor hd m k = some T) (hct : ct < 256)
+    (hlv : env.libver < 2 ^ 32) (hl0 : env.libver ≠ 0)
+    (data : Bytes) (hlen : data.length < 2 ^ 31 - 2 ^ 12) (enc frags : List Bytes)
+    (henc : encode env (xorBackend T) (xorInst k m ct) data = .ok enc)
+    (hsub : ∀ f ∈ frags, f ∈ enc) (force : Bool) :
+    decode env (xorBackend T) (xorInst k m ct) frags (80 + blockSize (xorInst k m ct) data.length) force = .ok data ∨
+    ∃ e, decode env (xorBackend T) (xorInst k m ct) frags (80 + blockSize (xorInst k m ct) data.length) force
+        = .error (.rc e) ∧ e < 0 := by
+  obtain ⟨hmem, rfl, rfl, rfl⟩ := XorCheck.tableFor_fields hT
+  have hshape : xorShapeOK T.k T.m T.hd = true := by rw [xorTables_whitelist, hT]; rfl
+  obtain ⟨hE, _, hS, _, _⟩ := xor_contracts_for hT
+  exact decode_exact_or_error env _ (xorInst T.k T.m ct) data enc frags hE hS
+    (fun d p ms b e h => (xor_backend_errors_negative T d p ms b e).1 h) trivial
+    (xor_frontOK env T.k T.m T.hd ct data.length hshape hct hlv hl0 hlen) henc hsub force
+
+theorem reconstruct_exact_or_error_xor (env : Env) (k m hd ct : Nat) (T : XorTable)
+    (hT : LecGen.xorTableFor hd m k = some T) (hct : ct < 256)
+    (hlv : env.libver < 2 ^ 32) (hl0 : env.libver ≠ 0)
+    (data : Bytes) (hlen : data.length < 2 ^ 31 - 2 ^ 12) (enc frags : List Bytes)
+    (henc : encode env (xorBackend T) (xorInst k m ct) data = .ok enc)
+    (hsub : ∀ f ∈ frags, f ∈ enc) (dest : Int) :
+    reconstruct env (xorBackend T) (xorInst k m ct) frags (80 + blockSize (xorInst k m ct) data.length) dest
+        = .ok (enc.getD dest.toNat []) ∨
+    ∃ e, reconstruct env (xorBackend T) (xorInst k m ct) frags
+        (80 + blockSize (xorInst k m ct) data.length) dest = .error (.rc e) ∧ e < 0 := by
+  obtain ⟨hmem, rfl, rfl, rfl⟩ := XorCheck.tableFor_fields hT
+  have hshape : xorShapeOK T.k T.m T.hd = true := by rw [xorTables_whitelist, hT]; rfl
+  obtain ⟨hE, _, hS, _, _⟩ := xor_contracts_for hT
+  exact reconstruct_exact_or_error env _ (xorInst T.k T.m ct) data enc frags hE hS
+    (fun d p ms dst b e h => (xor_backend_errors_negative T d p ms b e).2 dst h) trivial
+    (xor_frontOK env T.k T.m T.hd ct data.length hshape hct hlv hl0 hlen) henc hsub dest
+
 /-- non-vacuity: with two of three fragments gone, (2,1) decode reports an error. -/
 example :
     (let env : Env := { libver := 0x010604, legacy := false }
@@ -88,4 +124,6 @@ example :
 #print axioms reconstruct_exact_or_error
 #print axioms decode_exact_or_error_rs
 #print axioms reconstruct_exact_or_error_rs
+#print axioms decode_exact_or_error_xor
+#print axioms reconstruct_exact_or_error_xor
 end LecProps.C02
